@@ -2,6 +2,8 @@ import WuffsVerif.Common.Line
 import WuffsVerif.Model.IOHelpers
 import WuffsVerif.Model.Suspend
 import WuffsVerif.Model.StatusFlow
+import WuffsVerif.Model.StdCall
+import WuffsVerif.Model.IOMatch
 /-!
 Line driver for C03 (`wv_c03`). Ops (io2 is always the end of the given buffer):
 
@@ -21,6 +23,12 @@ Line driver for C03 (`wv_c03`). Ops (io2 is always the end of the given buffer):
   world of the probe: the inner coroutine answers by the next input byte (`E` error 5, `N` note 5, `W`
   suspension 5 then ok, other ok, none `$short read`); script = `<hex new bytes>:<closed>,…`, one item per
   call. Prints the checker's verdict and what each call returned: `G|U [status:ri,…]`.
+* `status <hex of repr | NULL>` → `ok= note= susp= err= complete= trunc= internal= msg=<hex|NULL>`: the status
+  predicates of fundamental-public.h (`Model/StdCall.lean`).
+* `callrec <ample> <status hex|NULL> <closed> <sri0> <swi> <sri1> <dwi0> <dlen> <dwi1>` → the verdict word of
+  `StdCall.classify` for one call of a compiled decoder.
+* `match7 <hexbuf> <io0> <iop> <closed> <a>` → `<ret> <ok|unsafe> <shift-ok|invalid-shift>`;
+  `from_reader <hexW> <io0W> <iopW> <length> <hexR> <io0R> <iopR>` → `<ret> <iopW'> <iopR'> <hexW'> <ok|unsafe>`.
 -/
 open WuffsVerif.Line
 open WuffsVerif
@@ -161,6 +169,19 @@ def flowOp (ast names script : String) : String :=
     (if StatusFlow.guarded st then "G" else "U") ++ " [" ++ ",".intercalate items ++ "]"
   | _, _ => "bad-op"
 
+def b01 (b : Bool) : String := if b then "1" else "0"
+
+def parseRepr (s : String) : Option StdCall.SRepr :=
+  if s == "NULL" then some none else (fromHex s).map some
+
+def statusOp (r : StdCall.SRepr) : String :=
+  let msg := match StdCall.message r with
+    | none => "NULL"
+    | some bs => toHex bs
+  s!"ok={b01 (StdCall.isOk r)} note={b01 (StdCall.isNote r)} susp={b01 (StdCall.isSuspension r)} " ++
+  s!"err={b01 (StdCall.isError r)} complete={b01 (StdCall.isComplete r)} trunc={b01 (StdCall.isTruncatedInputError r)} " ++
+  s!"internal={b01 (StdCall.isInternalError r)} msg={msg}"
+
 def step (f : List String) : String :=
   match f with
   | ["hist", variant, hb, io0, iop, len, dist] =>
@@ -194,6 +215,27 @@ def step (f : List String) : String :=
       else "bad-op"
     | _, _, _, _, _, _ => "bad-op"
   | ["flow", _fn, ast, names, script] => flowOp ast names script
+  | ["status", h] =>
+    match parseRepr h with
+    | some r => statusOp r
+    | none => "bad-op"
+  | ["callrec", ample, st, closed, sri0, swi, sri1, dwi0, dlen, dwi1] =>
+    match ample.toNat?, parseRepr st, sri0.toNat?, swi.toNat?, sri1.toNat?, dwi0.toNat?, dlen.toNat?, dwi1.toNat? with
+    | some ample, some st, some sri0, some swi, some sri1, some dwi0, some dlen, some dwi1 =>
+      (StdCall.classify ⟨st, closed == "1", sri0, swi, sri1, dwi0, dlen, dwi1, ample⟩).word
+    | _, _, _, _, _, _, _, _ => "bad-op"
+  | ["match7", hb, io0, iop, closed, a] =>
+    match fromHex hb, io0.toNat?, iop.toInt?, a.toNat? with
+    | some b, some io0, some iop, some a =>
+      let r := IOHelpers.match7 (mkMem b io0) iop (closed == "1") a.toUInt64
+      s!"{r.ret} {okWord r.mem.ok} " ++ (if r.shiftOk then "shift-ok" else "invalid-shift")
+    | _, _, _, _ => "bad-op"
+  | ["from_reader", hw, io0w, iopw, len, hr, io0r, iopr] =>
+    match fromHex hw, io0w.toNat?, iopw.toInt?, len.toNat?, fromHex hr, io0r.toNat?, iopr.toInt? with
+    | some bw, some io0w, some iopw, some len, some br, some io0r, some iopr =>
+      let r := IOHelpers.copyFromReaderLimited (mkMem bw io0w) iopw len (mkMem br io0r) iopr
+      s!"{r.ret} {r.iopW} {r.iopR} {bytesHex r.mw.buf} {okWord (r.mw.ok && r.mr.ok)}"
+    | _, _, _, _, _, _, _ => "bad-op"
   | _ => "bad-op"
 
 end C03Driver
